@@ -150,7 +150,7 @@ fn sweep(out: &mut Out, r: &mut Rng, m128: bool, kempston: bool, mouse: bool, ex
 
 /// floating bus: IN from a port nothing claims at chosen beam positions, screen filled with a
 /// pattern that makes every fetched byte distinguishable from its neighbours
-fn floating(out: &mut Out, r: &mut Rng, m128: bool, shadow: bool, reads: u64) {
+fn floating(out: &mut Out, r: &mut Rng, m128: bool, shadow: bool, reads: u64, lock: bool) {
     let frame = if m128 { FRAME_128 } else { FRAME_48 };
     let (t0, line) = if m128 { (14361usize, 228usize) } else { (14335usize, 224usize) };
     let cfg = EmuCfg::new(m128);
@@ -172,8 +172,15 @@ fn floating(out: &mut Out, r: &mut Rng, m128: bool, shadow: bool, reads: u64) {
     if m128 && shadow {
         out_port(&mut emu, 0x7FFD, 7);
         let scr7 = fill(&mut emu, 0xC000, 7);
-        out_port(&mut emu, 0x7FFD, 0x08); // display bank 7, bank 0 at 0xC000
+        // display bank 7, bank 0 at 0xC000 (`lock`: the same write also locks the latch)
+        out_port(&mut emu, 0x7FFD, if lock { 0x28 } else { 0x08 });
         visible = scr7;
+    } else if m128 && lock {
+        // the other way round: the shadow screen was displayed, one write selects the normal one and locks the latch
+        out_port(&mut emu, 0x7FFD, 7);
+        let _ = fill(&mut emu, 0xC000, 7);
+        out_port(&mut emu, 0x7FFD, 0x08);
+        out_port(&mut emu, 0x7FFD, 0x20);
     }
     out.ev(json!({"ev":"fcfg","m": if m128 {128} else {48},"shadow":shadow,"screen":visible}));
     for i in 0..reads {
@@ -215,9 +222,11 @@ pub fn run(args: &Args) {
     }
     let fl = args.num("floating", 0);
     if fl > 0 {
-        floating(&mut out, &mut r, false, false, fl);
-        floating(&mut out, &mut r, true, false, fl);
-        floating(&mut out, &mut r, true, true, fl);
+        floating(&mut out, &mut r, false, false, fl, false);
+        floating(&mut out, &mut r, true, false, fl, false);
+        floating(&mut out, &mut r, true, true, fl, false);
+        floating(&mut out, &mut r, true, true, fl / 2, true);
+        floating(&mut out, &mut r, true, false, fl / 2, true);
     }
     let n = out.finish();
     eprintln!("ports: {n} events");
